@@ -57,6 +57,14 @@ CHECKS['C18'] = dict(
     design_ref='DESIGN.md 4/C18',
     note='Trusted: MIR = code; std builtins. Outside: capture of the OS environment in main, non-UTF-8 values, unusual names.',
     technique='symbolic execution of rustc MIR with symbolic environment values; equality by z3, disclosure by taint on the error value (bounded: variables, bytes)')
+CHECKS['C13'] = dict(
+    category='model_checking',
+    text='The binary crate\'s real test_command -> visit_ucg_files -> do_validate -> build_file -> FileBuilder::build (parser, type checker, translator, VM, assert hook, collector) is executed '
+         'from MIR for 1..3 files with 0..3 assertions each in every combination of forms (true/false symbolic, malformed, preceded/followed by a build error); per path z3-determined outcomes '
+         'give the reference verdicts: Pass iff the file builds and all its own assertions hold, every assertion exactly once in that file\'s log, exit(1) iff some file failed, independent of earlier files.',
+    design_ref='DESIGN.md 4/C13',
+    note='Trusted: MIR = code; virtual file system, stdout and process::exit stubs; clap::ArgMatches stand-in. Outside: directory recursion, other stdout layout.',
+    technique='symbolic execution of the binary crate\'s MIR with symbolic assertion outcomes; z3 decides outcomes per path; replay with the real ucg binary (bounded: files, assertions)')
 NOT_APPLICABLE = {
 }
 ALL = ['C%02d' % i for i in range(1, 21)]
